@@ -55,11 +55,37 @@ static inline void verif_die(void)
 #undef warn
 #undef dbg
 #undef rerr
+#ifndef VERIF_EVAL_DIAG_ARGS
 #define err(...)  verif_err()
 #define warn(...) verif_warn()
 #define info(...) verif_info()
 #define rerr(...) verif_info()
 #define die(...)  verif_die()
+#else
+/* opt-in (-DVERIF_EVAL_DIAG_ARGS): the ARGUMENTS of a diagnostic are still evaluated (each into a
+ * local of its own type), so a NULL / dangling dereference inside an error message -- err("... %s",
+ * spec->name) with spec == NULL -- is a failed pointer obligation; only the formatting is dropped.
+ * Up to 10 arguments after the format.  A GNU statement expression (a do-while(0) would count as a loop). */
+#define VE_ARG(a) { __typeof__((a) + 0) verif_diag_arg = (a); (void) verif_diag_arg; }
+#define VE_0(...)
+#define VE_1(a, ...) VE_ARG(a)
+#define VE_2(a, ...) VE_ARG(a) VE_1(__VA_ARGS__)
+#define VE_3(a, ...) VE_ARG(a) VE_2(__VA_ARGS__)
+#define VE_4(a, ...) VE_ARG(a) VE_3(__VA_ARGS__)
+#define VE_5(a, ...) VE_ARG(a) VE_4(__VA_ARGS__)
+#define VE_6(a, ...) VE_ARG(a) VE_5(__VA_ARGS__)
+#define VE_7(a, ...) VE_ARG(a) VE_6(__VA_ARGS__)
+#define VE_8(a, ...) VE_ARG(a) VE_7(__VA_ARGS__)
+#define VE_9(a, ...) VE_ARG(a) VE_8(__VA_ARGS__)
+#define VE_10(a, ...) VE_ARG(a) VE_9(__VA_ARGS__)
+#define VE_PICK(_f, _1, _2, _3, _4, _5, _6, _7, _8, _9, _10, N, ...) N
+#define VE_ALL(fmt, ...) VE_PICK(fmt, ##__VA_ARGS__, VE_10, VE_9, VE_8, VE_7, VE_6, VE_5, VE_4, VE_3, VE_2, VE_1, VE_0)(__VA_ARGS__)
+#define err(...)  ({ VE_ALL(__VA_ARGS__) verif_err(); })
+#define warn(...) ({ VE_ALL(__VA_ARGS__) verif_warn(); })
+#define info(...) ({ VE_ALL(__VA_ARGS__) verif_info(); })
+#define rerr(...) ({ VE_ALL(__VA_ARGS__) verif_info(); })
+#define die(...)  ({ VE_ALL(__VA_ARGS__) verif_die(); })
+#endif
 #define dbg(...)  ((void)0)
 
 /* ---- printf family: formatting is dropped, truncation checks stay live ---- */
